@@ -31,6 +31,24 @@ var fdTruth = map[*Term][]uint64{}
 var fdOff = os.Getenv("GOSYM_NOFD") != ""
 var fdCheck = os.Getenv("GOSYM_CHECKFD") != ""
 
+// Sampling: in every run one in fdSampleDecide "implied" verdicts and one in fdSampleSolve path-condition
+// verdicts of this procedure is put to the SMT solver as well (a disagreement is an engine bug and makes the
+// unit BROKEN); GOSYM_CHECKFD=1 checks every verdict.
+const fdSampleDecide = 5000
+const fdSampleSolve = 100
+
+var fdNDecide, fdNSolve int64
+
+func fdConfirmDecide() bool {
+	fdNDecide++
+	return fdCheck || fdNDecide%fdSampleDecide == 0
+}
+
+func fdConfirm() bool {
+	fdNSolve++
+	return fdCheck || fdNSolve%fdSampleSolve == 0
+}
+
 func fdReset() {
 	fdDomains = map[*Term]*fdDomain{}
 	fdTruth = map[*Term][]uint64{}
@@ -194,7 +212,8 @@ func (x *Explorer) fdDecide(cond *Term) (res int, v *Term, truth []uint64) {
 		// solver accepted the prefix, so the candidate list does not cover the variable's domain
 		panic(engineBug(fmt.Sprintf("finite-domain filter: empty candidate set for %s at %s", v.Name, cond)))
 	}
-	if fdCheck && x.S != nil {
+	if x.S != nil && fdConfirmDecide() {
+		x.FDConfirmed++
 		lit := cond
 		if res == 1 {
 			lit = TNot(cond)
@@ -220,4 +239,78 @@ func (x *Explorer) fdNarrow(v *Term, truth []uint64, taken bool) {
 		}
 	}
 	x.feas[v] = nf
+}
+
+// fdSolve decides a conjunction of literals without the solver when every literal is a condition over one listed
+// variable: such a conjunction is satisfiable iff every variable keeps at least one candidate (the variables are
+// independent of each other, their domain constraints are already in the candidate lists), and any choice of
+// remaining candidates is a model. ok=false: some literal mentions several variables or an unlisted one.
+func (x *Explorer) fdSolve(lits []*Term) (sat bool, m Model, ok bool) {
+	if fdOff {
+		return false, nil, false
+	}
+	feas := map[*Term][]uint64{}
+	for _, l := range lits {
+		cond, want := l, true
+		for cond.Op == OpBNot {
+			cond, want = cond.A, !want
+		}
+		if cond.IsConst() {
+			if (cond.Val != 0) != want {
+				return false, nil, true
+			}
+			continue
+		}
+		v := fdVar(cond)
+		if v == nil {
+			return false, nil, false
+		}
+		truth := fdTruthOf(cond, v)
+		f, seen := feas[v]
+		if !seen {
+			n := len(fdDomains[v].vals)
+			f = make([]uint64, fdWords(n))
+			for i := range f {
+				f[i] = ^uint64(0)
+			}
+			if r := uint(n) % 64; r != 0 {
+				f[len(f)-1] = (uint64(1) << r) - 1
+			}
+			feas[v] = f
+		}
+		any := false
+		for i := range f {
+			if want {
+				f[i] &= truth[i]
+			} else {
+				f[i] &^= truth[i]
+			}
+			if f[i] != 0 {
+				any = true
+			}
+		}
+		if !any {
+			return false, nil, true
+		}
+	}
+	m = Model{}
+	for v, f := range feas {
+		d := fdDomains[v]
+		// prefer the variable's default value when it is still a candidate (keeps models stable), else the first candidate
+		if i, in := d.idx[varDefault(v)&mask(v.W)]; in && f[i/64]&(1<<(uint(i)%64)) != 0 {
+			m[v] = d.vals[i]
+			continue
+		}
+		for i := range f {
+			if f[i] != 0 {
+				b := 0
+				for f[i]&(1<<uint(b)) == 0 {
+					b++
+				}
+				m[v] = d.vals[i*64+b]
+				break
+			}
+		}
+	}
+	return true, m, true
 }
